@@ -45,8 +45,11 @@ def extra_violations(bdir):
     return v, {"compiled_polling_probes": res["functions"], "cfg_cycles_checked": res["cycles"]}
 
 
+TECHNIQUE = ("stateless preemption-bounded model checking of the real code under a controlled scheduler with x86-TSO store buffers; plus exhaustive "
+             "structural exploration of the control-flow graph of optimised polling readers compiled from the headers")
 LEVEL_TEXT = ("Exhaustive enumeration of updater operation sequences and, within preemption / store-delay budgets, of all interleavings of "
               "their pointer stores with reader traversals on the real rculist/rcuhlist primitives; traversal consistency decided on "
               "every execution.")
 LEVEL_NOTE = ("Trusted: specification flavor, x86-TSO, race-directed promotion finds every plain store a reader can observe. Bounds: lists of "
-              "<=5 nodes, 2-3 updater operations, 1-2 readers; quick P<=2 / P1D1, thorough P<=3 / P2D2.")
+              "<=5 nodes, 2-3 updater operations, 1-2 readers; quick P<=2 / P1D1, thorough P<=3 / P2D2. The compiler-level clause (no hoisting of "
+              "forward-pointer loads) is decided on gcc 12 -O2/-O3 output of 5 probe readers only.")
